@@ -8,6 +8,19 @@ MASKS = "[M]"
 UNSEEN = "zz"
 
 
+
+def _past(m, item, A, B):
+    """a third of the instances use an estimator object with a past: fitted on other data and used before the fit under test
+    (a re-fitted object must behave like a fresh one); a past that the configuration rejects is no past"""
+    import json
+    if len(json.dumps(item.get("corpus", item.get("train", "")), sort_keys=True)) % 3 != 1:
+        return
+    try:
+        m.fit(A)
+        m.transform(B)
+    except Exception:  # noqa
+        pass
+
 def name(t, V):
     return MASKS if t == V else (UNSEEN if t == V + 1 else TOKS[t])
 
@@ -89,6 +102,7 @@ def run_ngram(item):
             fails.append({"what": "train cells", "bad": [[str(k), e, g] for k, e, g in b][:6]})
             sig.append(unigram_zero_only(b))
         m2 = NgramVectorizer(**kw)
+        _past(m2, item, [["q", "r", "q", "q", "r"], ["r", "q"]], [["q", "r"], []])
         if m2.fit(X) is not m2:
             fails.append({"what": "fit does not return self"})
         for nm, data, exp in (("transform(X')", Xt, item["trans"]), ("transform(X)", X, item["train"])):
@@ -207,6 +221,7 @@ def run_skipgram(item):
         if b:
             fails.append({"what": "train cells", "bad": b})
         m2 = SkipgramVectorizer(**kw)
+        _past(m2, item, [["q", "r", "q", "q", "r"], ["r", "q"]], [["q", "r"], []])
         if m2.fit(X) is not m2:
             fails.append({"what": "fit does not return self"})
         for nm, data, exp in (("transform(X')", Xt, item["trans"]), ("transform(X)", X, item["train"])):
@@ -270,6 +285,7 @@ def run_edgelist(item):
         if b:
             fails.append({"what": "train cells", "style": style, "bad": b})
         m2 = EdgeListVectorizer(**kw)
+        _past(m2, item, [("u", "v", 1), ("u", "w", 2), ("x", "v", 1)], [("u", "v", 3)])
         if m2.fit(E) is not m2:
             fails.append({"what": "fit does not return self"})
         for nm, data, exp in (("transform(X')", Et, item["trans"]), ("transform(X)", E, item["train"])):
